@@ -135,6 +135,9 @@ AddData(d) ==
 AddStatus(s) ==
     /\ phase = "status" /\ Len(e.status) < MaxStatus(focus)
     /\ \A i \in 1..Len(e.status) : e.status[i] # s
+    \* the first declared option of an enum whose name ends in UNSPECIFIED IS the zero value (R "Enum"): such a status is
+    \* only an ordinary status when something is declared before it
+    /\ (s = "OUTCOME_UNSPECIFIED" => Len(e.status) >= 1)
     /\ e' = [e EXCEPT !.status = Append(@, s)]
     /\ UNCHANGED <<phase, focus>>
 
